@@ -258,6 +258,47 @@ def fresh_interpreter_minimise(pid, v, cfg, max_rounds=12):
     return best
 
 
+def cold_start_probe(names=None):
+    """C07: every operation of sim/coldstart.py as the first thing a new interpreter does after
+    `from d42 import schema`, compared with the same operation once the whole package is loaded.
+    -> (violations, number of interpreters run, harness errors)"""
+    script = os.path.join(VERIF, "sim", "coldstart.py")
+    env = dict(os.environ, PYTHONHASHSEED="0")
+    env.pop("PYTHONPATH", None)
+
+    def run(name):
+        return subprocess.Popen([sys.executable, "-X", "faulthandler", script, d42_src(), name], env=env,
+                                stdout=subprocess.PIPE, stderr=subprocess.PIPE, text=True)
+    if names is None:
+        p = run("--list")
+        out, err = p.communicate(timeout=120)
+        names = json.loads(out)
+    procs = [(n, run(n)) for n in names]
+    viol, errors, ref = [], [], None
+    for n, p in procs:
+        try:
+            out, err = p.communicate(timeout=120)
+            d = json.loads(out.strip().splitlines()[-1])
+        except Exception as e:
+            p.kill()
+            errors.append({"type": "harness_error", "error": "cold start probe %s: %r %s" % (n, e, (err or "")[-300:] if "err" in dir() else "")})
+            continue
+        first, after = d["first"][1], d["after"]
+        detail = None
+        if first != after.get(n):
+            detail = "%s as the first d42 operation of a new interpreter (after `from d42 import schema` only) gave %s, and %s once every sub-package had been imported" % (
+                n, str(first)[:160], str(after.get(n))[:160])
+        elif ref is not None and after != ref:
+            detail = "with %s as the first operation, the later outcomes of all operations differ from those in the other interpreters" % n
+        if ref is None:
+            ref = after
+        if detail:
+            viol.append({"property": "C07", "signature": {"property": "C07", "invariant": "I3:outcome_depends_on_import_order", "component": n},
+                         "sig_id": "cold-%s" % n, "kind": "cold_start", "features": [], "schedule": {"policy": "-"},
+                         "case": {"mode": "cold_start", "op": n}, "detail": detail})
+    return viol, len(procs), errors
+
+
 def run_check(pid, tier, seed, workers=None, cases=None, quiet=False):
     if pid == "C17":
         from .c17_runner import run_check_c17
@@ -464,6 +505,10 @@ def run_check(pid, tier, seed, workers=None, cases=None, quiet=False):
         if ent["status"] == "known" and ent["id"] in kf_seen:
             out_lines.append("KNOWN-FINDING: property=%s %s [%s; seen %d]" % (pid, ent["what"], ent["id"], kf_seen[ent["id"]]))
     if pid == "C07":
+        cv, n_cold, cerr = cold_start_probe()
+        probes["cold_start_interpreters"] = n_cold
+        harness_errors.extend(cerr)
+        new_viol.extend(cv[:2])
         for i, v in enumerate(new_viol):
             c = v.get("case") or {}
             if c.get("mode") == "script" and len(c.get("ops", ())) > 4 and v.get("minimise_execs", 0) > 0 \
@@ -554,6 +599,16 @@ def run_replay(pid, path):
             return 1
         print("NOT-REPRODUCED property=%s replay=%s" % (pid, path))
         return 0
+    if rep["violation"].get("kind") == "cold_start":
+        cv, _, cerr = cold_start_probe([rep["violation"]["case"]["op"]])
+        for e in cerr:
+            print("HARNESS-ERROR: %s" % e["error"], file=sys.stderr)
+        if cv:
+            print("VIOLATION property=%s replay=%s" % (pid, path))
+            print("  %s" % cv[0]["detail"][:400])
+            return 1
+        print("NOT-REPRODUCED property=%s replay=%s" % (pid, path))
+        return 2 if cerr else 0
     if rep["violation"].get("kind") == "process_history":
         c = rep["violation"]["case"]
         a, b = run_sequences(pid, c["seed"], c["tier_cfg"], [c["predecessors"] + [c["target"]],
